@@ -53,8 +53,8 @@ impl Call {
         use vdb::ops::IdxDelta::*;
         match self {
             Call::Reindex(AddTags) => Idx { tags: false, ..Idx::ALL },
-            Call::Reindex(AddBody) => Idx { body: false, ..Idx::ALL },
-            Call::Reindex(AddEmb) => Idx { emb: false, ..Idx::ALL },
+            Call::Reindex(AddBody | AddBodyDropName) => Idx { body: false, ..Idx::ALL },
+            Call::Reindex(AddEmb | AddEmbDropTags) => Idx { emb: false, ..Idx::ALL },
             Call::Reindex(AddName) => Idx { name: false, ..Idx::ALL },
             _ => Idx::ALL,
         }
@@ -1221,6 +1221,9 @@ fn main() {
         Call::Reindex(vdb::ops::IdxDelta::AddBody),
         Call::Reindex(vdb::ops::IdxDelta::AddEmb),
         Call::Reindex(vdb::ops::IdxDelta::AddName),
+        // one callback that creates an index and removes another
+        Call::Reindex(vdb::ops::IdxDelta::AddEmbDropTags),
+        Call::Reindex(vdb::ops::IdxDelta::AddBodyDropName),
     ];
     let mut items = Vec::new();
     for c in &cancel_calls {
@@ -1433,8 +1436,13 @@ fn main() {
             keys: Vec<u64>,
             capped: bool,
         }
+        let quick = run.tier == vcore::Tier::Quick;
         let outs = util::par_map(sets, threads, |ops| {
             let mut lo = LrOut { ops: ops.clone(), machinery: None, found: vec![], execs: 0, steps: 0, keys: vec![], capped: false };
+            // quick: the full bound for the sets in which all three kinds of call meet and for the pairs,
+            // one preemption less for the three-call sets that repeat a kind
+            let distinct_kinds = [Close, Open, Delete].iter().filter(|k| ops.contains(k)).count();
+            let bound = if quick && ops.len() == 3 && distinct_kinds < 3 { bound - 1 } else { bound };
             let a = life_race_case(idx, &ops, &mut Chooser::new(vec![]));
             let b = life_race_case(idx, &ops, &mut Chooser::new(vec![]));
             if a.labels != b.labels || a.outcome_key != b.outcome_key {
